@@ -281,7 +281,7 @@ class NoReturn(Exception):
     """get_pathline used up the evaluation budget without returning (it would not return in practice)."""
 
 
-EVAL_BUDGET = 50_000  # velocity evaluations per get_pathline call; calls that return need < 1e3 (maximum kept in the evidence)
+EVAL_BUDGET = 20_000  # velocity evaluations per get_pathline call; calls that return need < 1e3 (maximum kept in the evidence)
 
 
 def budgeted(u, counter):
@@ -307,7 +307,8 @@ def run_pathline(job):
     * tensorial strain = sum of strain_increment(dt, gradient callable) over 4 sub-intervals per step, over
       the part of the path that is inside the box.
     """
-    tid, rec, seed = job
+    tid, rec, seed = job[:3]
+    tamper = job[3] if len(job) > 3 else None  # negative controls of the recorder (see main)
     quiet_pydrex()
     from pydrex import pathlines, utils
 
@@ -332,6 +333,16 @@ def run_pathline(job):
         return ev, info
     ts = np.asarray(ts, dtype=float)
     ext = float((hi - lo).max())
+    if tamper == "velocity":  # judge the path against a field that is 20 % faster than the one integrated
+        u0 = u
+        u = lambda t, x: 1.2 * u0(t, x)  # noqa: E731
+    elif tamper == "gradient":  # account the strain with twice the gradient that limited the path
+        L0 = L
+        L = lambda t, x: 2.0 * L0(t, x)  # noqa: E731
+    elif tamper == "box":  # judge the path against a box 2 % smaller on every side
+        lo, hi = lo + 0.02 * (hi - lo), hi - 0.02 * (hi - lo)
+    elif tamper == "end":  # ask whether the path ends somewhere else
+        xf = xf + 1e-6 * ext
 
     def excursion(x):
         return float(np.maximum(lo - x, x - hi).max())
@@ -409,7 +420,7 @@ def validate(events, d, cfg, name="trace.ndjson", timeout=1200):
 def main(tier):
     chk = Check("C18", tier)
     quick = tier != "thorough"
-    nproc = min(4 if quick else 14, os.cpu_count() or 2)
+    nproc = min(4 if quick else 12, os.cpu_count() or 2)
     # ---- 1. Layer A: lemmas + case emission
     res = run_tlc("Flows", "Flows" if quick else "Flows_thorough", workers=4, timeout=900)
     chk.add_tlc("Flows", res, "axis table 8x8 strings; 3 families x 6 axis pairs symbolic Jacobians (+ 2 shear conventions); parameter and point classes; exact strain-increment cases; lemmas OffPlaneZero, ShearExact, CellTraceFree, CornerExact, StrainSpectrum")
@@ -525,9 +536,13 @@ def main(tier):
         nfam = {}
         for tid, (rec, info) in infos.items():
             nfam[rec["scen"]["fam"]] = nfam.get(rec["scen"]["fam"], 0) + 1
+        bad_tids = {}
+        for key, lst in by_sig.items():
+            sg = json.loads(key)
+            bad_tids.setdefault((sg["family"], sg["clause"]), set()).update(t for t, _ in lst)
         for fam, n in nfam.items():
             for cl in clauses:
-                nbad = len({tid for key, lst in by_sig.items() for tid, _ in lst if json.loads(key)["family"] == fam and json.loads(key)["clause"] == cl})
+                nbad = len(bad_tids.get((fam, cl), ()))
                 nj = n if cl == "pathline-returned" else outcome.get((fam, "returned"), 0)
                 judge.table[(fam, cl)] = [nj - nbad, nbad]
         for key, lst in sorted(by_sig.items()):
@@ -536,7 +551,8 @@ def main(tier):
             rec, info = infos[tid]
             tids = sorted({t for t, _ in lst})
             chk.violation(sig, f"get_pathline/{sig['family']}: {sig['clause']} rejected by PathTrace for {len(tids)} of {nfam[sig['family']]} interior final locations; "
-                               f"first: scenario {json.dumps(rec['scen'], sort_keys=True)} final_location={info['args']['xf']} {info.get('exc', '')}",
+                               f"first: scenario {json.dumps(rec['scen'], sort_keys=True)} final_location={info['args']['xf']} "
+                               f"{info.get('exc', '')}{ {k: float('%.4g' % v) for k, v in info.items() if k in ('ratio', 'ode', 'outside', 'endDev', 'T')} if 'ratio' in info else ''}",
                           dict(kind="pathline", scenario=rec, args=info["args"], info={k: v for k, v in info.items() if k != "args"}, event=events[line - 1],
                                failing=len(tids), of=nfam[sig["family"]], other_failing_scenarios=[infos[t][0]["scen"] for t in tids[1:6]]))
         good = next((tid for tid, (rec, info) in infos.items() if "ratio" in info and info["T"] > 0), None)
@@ -544,12 +560,11 @@ def main(tier):
             raise MachineryError("no pathline returned at all: nothing to build the trace controls from")
         chk.sample(dict(kind="pathline-events", events=[e for e in events if e["tid"] == good][:4], info={k: v for k, v in infos[good][1].items() if k != "args"}))
         # negative controls: corrupt one accepted pathline per clause; the trace spec must name each clause
-        base = [e for e in events if e["tid"] == good]
-        if any(t == good for t, _, _ in rejects):
-            good2 = next((tid for tid, (rec, info) in infos.items() if "ratio" in info and info["T"] > 0 and not any(t == tid for t, _, _ in rejects)), None)
-            if good2 is None:
-                raise MachineryError("no accepted pathline to build the trace controls from")
-            base = [e for e in events if e["tid"] == good2]
+        rejected_tids = {t for t, _, _ in rejects}
+        good2 = next((tid for tid, (rec, info) in sorted(infos.items()) if "ratio" in info and info["T"] > 0 and tid not in rejected_tids), None)
+        if good2 is None:
+            raise MachineryError("no accepted pathline to build the trace controls from")
+        base = [e for e in events if e["tid"] == good2]
         lim = base[0]["scen"]["lim_e1"]
 
         def variant(n, f):
@@ -576,6 +591,18 @@ def main(tier):
         bad_events = []
         for n, (name, f, _) in enumerate(variants, start=1):
             bad_events.extend(variant(n, f))
+        # recorder controls: the same real pathline measured against a tampered field / gradient / box / end point
+        accepted = [(tid, info) for tid, (rec, info) in sorted(infos.items()) if "ratio" in info and tid not in rejected_tids]
+        tampers = [("velocity", "follows-velocity", lambda i: i.get("steps", 0) >= 12),
+                   ("gradient", "strain-bound", lambda i: i["ratio"] > 0.9),
+                   ("box", "inside-box", lambda i: i["outside"] > 1e-7 and i.get("steps", 0) >= 3),
+                   ("end", "ends-at-final-location", lambda i: True)]
+        for n, (tm, _, pred) in enumerate(tampers, start=100):
+            cand = [tid for tid, info in accepted if pred(info)]
+            if not cand:
+                raise MachineryError(f"no accepted pathline to build the recorder control '{tm}' from")
+            evs, _ = run_pathline((n, infos[cand[0]][0], SEED, tm))
+            bad_events.extend(evs)
         # a malformed pathline leaves the machine mid-trace; close it with a fresh Call so that DONE sees "idle"
         bad_events.extend(variant(len(variants) + 1, lambda v: v))
         rj, tr2, _ = validate(bad_events, d, cfg, name="controls.ndjson")
@@ -590,6 +617,9 @@ def main(tier):
             else:
                 chk.control(f"trace-control-{name.split(':')[0]}-rejected", got.get(n) == {name}, str(got.get(n)))
         chk.control("trace-control-resynchronises-after-malformed", (len(variants) + 1) not in got, str(got.get(len(variants) + 1)))
+        for n, (tm, clause, _) in enumerate(tampers, start=100):
+            chk.control(f"recorder-control-tampered-{tm}-rejected-as-{clause}", clause in got.get(n, ()), str(got.get(n)))
+        chk.add_tlc("PathTrace(controls)", tr2, f"{len(bad_events)} lines: one corrupted copy of an accepted pathline per clause, one malformed, four tampered recordings")
 
     chk.cov["pathline_outcomes"] = {f"{f}/{o}": n for (f, o), n in sorted(outcome.items())}
     chk.cov["clause_table"] = {f"{f}/{c}": dict(passed=p, failed=n) for (f, c), (p, n) in sorted(judge.table.items())}
